@@ -18,42 +18,29 @@ Proof.
   split; [intros [A B]; subst; reflexivity|intro H; inversion H; auto].
 Qed.
 
-(* operator!= is true exactly when BOTH CompIDs differ *)
-Theorem sid_ne_char : forall a b, sid_ne a b = true <-> (sid_snd a <> sid_snd b /\ sid_tgt a <> sid_tgt b).
+(* operator!= is the negation of operator== (ab2c959) *)
+Theorem sid_ne_negb_eq : forall a b, sid_ne a b = negb (sid_eq a b).
+Proof. intros. unfold sid_ne, sid_eq. rewrite negb_andb. reflexivity. Qed.
+
+(* hence true exactly when the identities differ *)
+Theorem sid_ne_char : forall a b, sid_ne a b = true <-> a <> b.
 Proof.
-  intros a b. unfold sid_ne. rewrite andb_true_iff, !negb_true_iff, !beq_neq.
+  intros a b. rewrite sid_ne_negb_eq, negb_true_iff. split.
+  - intros H E. apply sid_eq_char in E. congruence.
+  - intro H. destruct (sid_eq a b) eqn:E; [|reflexivity]. apply sid_eq_char in E. contradiction.
+Qed.
+
+(* the operator as it was before the repair: true exactly when BOTH CompIDs differ ... *)
+Theorem sid_ne_orig_char : forall a b, sid_ne_orig a b = true <-> (sid_snd a <> sid_snd b /\ sid_tgt a <> sid_tgt b).
+Proof.
+  intros a b. unfold sid_ne_orig. rewrite andb_true_iff, !negb_true_iff, !beq_neq.
   split; intros [A B]; split; congruence.
 Qed.
 
-(* it is the negation of operator== unless exactly one CompID differs *)
-Theorem sid_ne_partial : forall a b,
-  (sid_snd a = sid_snd b <-> sid_tgt a = sid_tgt b) -> sid_ne a b = negb (sid_eq a b).
+(* ... so that A->B against A->C was neither == nor != *)
+Theorem sid_ne_orig_refuted : exists a b, a <> b /\ sid_eq a b = false /\ sid_ne_orig a b = false /\ sid_ne a b = true.
 Proof.
-  intros a b H. unfold sid_ne, sid_eq.
-  destruct (beq (sid_snd b) (sid_snd a)) eqn:E1; destruct (beq (sid_tgt b) (sid_tgt a)) eqn:E2; try reflexivity.
-  - apply beq_eq in E1. apply beq_neq in E2. exfalso. apply E2. symmetry. apply H. congruence.
-  - apply beq_neq in E1. apply beq_eq in E2. exfalso. apply E1. symmetry. apply H. congruence.
-Qed.
-
-(* ... and when exactly one differs both operators answer false *)
-Theorem sid_one_differs : forall a b,
-  (sid_snd a = sid_snd b /\ sid_tgt a <> sid_tgt b) \/ (sid_snd a <> sid_snd b /\ sid_tgt a = sid_tgt b) ->
-  sid_eq a b = false /\ sid_ne a b = false.
-Proof.
-  intros a b H. unfold sid_eq, sid_ne.
-  destruct H as [[A B]|[A B]].
-  - assert (E1 : beq (sid_snd b) (sid_snd a) = true) by (apply beq_eq; congruence).
-    assert (E2 : beq (sid_tgt b) (sid_tgt a) = false) by (apply beq_neq; congruence).
-    rewrite E1, E2. split; reflexivity.
-  - assert (E1 : beq (sid_snd b) (sid_snd a) = false) by (apply beq_neq; congruence).
-    assert (E2 : beq (sid_tgt b) (sid_tgt a) = true) by (apply beq_eq; congruence).
-    rewrite E1, E2. split; reflexivity.
-Qed.
-
-(* A->B against A->C *)
-Theorem sid_ne_refuted : exists a b, a <> b /\ sid_eq a b = false /\ sid_ne a b = false.
-Proof.
-  exists (mkSid [65] [66]), (mkSid [65] [67]). split; [discriminate|]. split; reflexivity.
+  exists (mkSid [65] [66]), (mkSid [65] [67]). split; [discriminate|]. repeat split; reflexivity.
 Qed.
 
 Theorem sid_self : forall a, sid_eq a a = true /\ sid_ne a a = false /\ sid_eq_self a = true /\ sid_ne_self a = false.
